@@ -15,7 +15,8 @@ semantics with footprints; that the footprint of each real API call is the model
 (`wset`, "allocates, never writes what exists") is supported by the correspondence
 runs and by the `-race` worker of the thorough tier — evidence, not proof.
 -/
-import CtyModel.Lemmas.HeapSets
+import CtyModel.Lemmas.HeapInvF
+import CtyModel.Lemmas.HeapEscape
 import CtyModel.Lemmas.HeapPure
 import CtyModel.Lemmas.HeapInterleave
 namespace CtyModel
@@ -72,6 +73,43 @@ theorem fingerprints_stable_partial (st : St) (ops : List HeapOp) (f : Nat) (w :
     (hw : frozen f st.mem w = true) (hr : respectfulRun st ops = true) :
     fp f (run st ops).mem w = fp f st.mem w :=
   fp_stable (run_preserves ops st hr) f w hw
+
+/-- **Every value the library builds is made of library-owned storage** — so the
+hypothesis `frozen f st.mem w` of `fingerprints_stable_partial` holds for every
+value register of every state a history reaches from the empty state, as long as
+the history respects the DOCUMENTED ownership rules (`docRespectfulRun`: the caller
+writes only objects it still owns, and gives `NumberVal` / `cty.Tuple` /
+`PathSet.Add` only objects it owns).  This is the defensive copying on the way in
+(`ListVal`, `TupleVal`, `ObjectVal`, `MapVal`, `SetVal`, `SetValFromValueSet` copy the
+caller's container) and the sharing of payloads between derived values (`Index`,
+`GetAttr`, element iteration, `Mark`, `Unmark` share library-owned payloads only),
+proved for all histories by an invariant over the whole heap. -/
+theorem values_frozen (ops : List HeapOp) (hd : docRespectfulRun {} ops = true) :
+    ∀ w ∈ (run {} ops).vals, ∀ f, frozen f (run {} ops).mem w = true :=
+  fun w hw f => (run_inv ops {} inv_empty hd).1.vals w hw f
+
+/-- **The receivers are in order.**  The part of `respectful` that is not about the
+caller's behaviour — the receiver of `ValueSet.Add/Remove`, `PathSet.Add` is a helper
+set whose storage is its own; a walk's path buffers are still the walk's — holds by
+itself along every history from the empty state that respects the documented rules. -/
+theorem receivers_in_order (ops : List HeapOp) (hd : docRespectfulRun {} ops = true) :
+    respectfulRun {} ops = true :=
+  (run_inv ops {} inv_empty hd).2
+
+/-- **Fingerprints are stable — all histories.**  Run any history `pre`, then any
+history `post`, the whole respecting the documented ownership rules.  Every value
+that exists after `pre` reports exactly the same deep content after `post`:
+no later API call on it, on values derived from it, on helper sets or their copies,
+and no mutation of Go data the caller passed to a constructor or got from an
+accessor changes it. -/
+theorem fingerprints_stable (pre post : List HeapOp) (hd : docRespectfulRun {} (pre ++ post) = true)
+    (w : Word) (hw : w ∈ (run {} pre).vals) (f : Nat) :
+    fp f (run {} (pre ++ post)).mem w = fp f (run {} pre).mem w := by
+  rw [docRespectfulRun_append, Bool.and_eq_true] at hd
+  obtain ⟨hi, _⟩ := run_inv pre {} inv_empty hd.1
+  obtain ⟨_, hr⟩ := run_inv post _ hi hd.2
+  rw [run_append]
+  exact fingerprints_stable_partial _ post f w (hi.vals w hw f) hr
 
 /-- the statement WITHOUT the ownership side condition — false of go-cty, by design -/
 def FingerprintsStableUnconditionally : Prop :=
@@ -188,7 +226,40 @@ theorem walk_copied_path_stays :
     goChanges (walkPre ++ [.api (.pathCopy 9), .api (.psAdd 4 10 0)]) 4 (.api (.walkNext 0)) = false := by
   decide
 
-/-! ## 3. Mutable helper sets: `Copy` gives an independent set -/
+/-! ## 3. Accessors do not let internals escape -/
+
+/-- **Accessors return fresh objects.**  Whatever `AsBigFloat`, `AsValueSlice`,
+`AsValueMap`, `Marks`, `Unmark`, `ValueSet.Values`, `Path.Index/GetAttr/Copy`,
+`PathSet.List` hand to the caller, the Go object directly behind it — the
+`*big.Float`, the backing array, the map, the mark set — was allocated by that very
+call and belongs to the caller; for `AsValueSet`, `ValueSet.Copy`, `NewValueSet`,
+`NewPathSet` the bucket map of the set returned was allocated by that call.
+None of it is an object that existed before, let alone one a value is made of:
+the caller may write it at will (`fingerprints_stable`). -/
+theorem no_escape {st st' : St} {c : Api} (h : step st (.api c) = some st') :
+    (isPlainAccessor c = true → ∀ g ∈ st'.gos.drop st.gos.length, ∀ a, goRoot g = some a →
+      st.mem.length ≤ a ∧ ownerOf st'.mem a = some .caller) ∧
+    (isSetAccessor c = true → ∀ g ∈ st'.gos.drop st.gos.length, ∀ a, goRoot g = some a →
+      st.mem.length ≤ a) :=
+  ⟨fun hc => plain_accessor_fresh hc h, fun hc => set_accessor_fresh hc h⟩
+
+/-- **Ownership never moves towards the caller.**  Whatever step runs — any API call,
+any caller action, respectful or not — an object that existed before it is
+caller-owned afterwards only if it was caller-owned before.  In particular no API
+call ever makes an object a value is made of (library-owned) writable by the
+caller: the accessors that do return internal state (`TupleElementTypes`,
+`AttributeTypes`, `PathSet.List`'s member paths, a `Walk` callback's path) return it
+library-owned, which is exactly what their documentation says ("read access only"). -/
+theorem ownership_never_returns {st st' : St} {op : HeapOp} (h : step st op = some st') :
+    ∀ a, a < st.mem.length → ownerOf st'.mem a = some .caller → ownerOf st.mem a = some .caller :=
+  (step_noGain h).2
+
+/-- what a value is made of is not the caller's -/
+theorem frozen_not_callers {m : Mem} {a : Addr} (h : frozenObj m a = true) : ownerOf m a ≠ some .caller := by
+  intro hc
+  simp [frozenObj, hc] at h
+
+/-! ## 4. Mutable helper sets: `Copy` gives an independent set -/
 
 /-- **A helper set changes only through its own mutating methods.**  A ValueSet /
 PathSet in order (`helperOK`: its bucket map is a helper's, every bucket array is
@@ -235,6 +306,15 @@ theorem valueset_copy_add {st st1 : St} {g : Nat} {ety : Word} {a : Addr} {f : N
   · exact (helper_stable_run ops _ f a hsrc.1 hr hn).2
   · exact (helper_stable_run ops _ f r.2 hok' hr hn).2
 
+/-- …for every ValueSet of every state a history reaches from the empty state (the
+hypothesis "in order" of `valueset_copy_add` holds by itself). -/
+theorem valueset_copy_add_all_histories (pre : List HeapOp) (hd : docRespectfulRun {} pre = true)
+    {g : Nat} {ety : Word} {a : Addr} (hg : (run {} pre).go g = some (.pair ety (.set a))) (f : Nat) :
+    helperOK f (run {} pre).mem (.set a) = true := by
+  have hi := (run_inv pre {} inv_empty hd).1
+  obtain ⟨_, kvs, hm⟩ := go_ok hi hg
+  exact helperOK_of_inv hi hm f
+
 /-- `Copy` as it was before 877dbc3 (`setCopyOld`: the copy's buckets are the
 receiver's slice headers) as a step on a register -/
 def vsCopyOld (st : St) (g : Nat) : Option St :=
@@ -266,7 +346,7 @@ theorem valueset_copy_add_old_counterexample :
      respectful n3 (.api (.vsAdd 2 4 9)) = true ∧ fp 8 n4.mem n3.gos[1]! = fp 8 n3.mem n3.gos[1]!) := by
   decide
 
-/-! ## 4. Purity: results do not depend on Go's map iteration order -/
+/-! ## 5. Purity: results do not depend on Go's map iteration order -/
 
 open Purity Value in
 /-- **`Equals` on objects is pure** (holds since /repo c1eb320).  `σ`, `σ'` are two
@@ -331,7 +411,7 @@ theorem constructor_map_collision_counterexample :
   revert this
   decide
 
-/-! ## 5. Sharing between goroutines -/
+/-! ## 6. Sharing between goroutines -/
 
 open Interleave in
 /-- **Interleavings are equivalent to sequential runs** (generic over the step
